@@ -157,6 +157,23 @@ def run(ctx):
         n = rnd.choice([1, 1, 2, 3])
         rnds.append(["".join(rnd.choice(SRC_ALPHABET) for _ in range(rnd.randint(1, 24))) + "\n" for _ in range(n)])
     raw_traces(ctx, "random-lines", rnds)
+    # INCLUDE of a missing file and inclusion cycles of length 1-3 (the other data-dependent recursion)
+    from harness.props import c19
+    import multiprocessing as mp
+    os.environ["VERIF_SCRATCH"] = tlc.OUT
+    t0 = time.time()
+    with mp.Pool(16) as pool:
+        ts = pool.map(c19.one, [(k, rnd.randrange(1 << 40), "cycle" if k % 3 else "missing") for k in range(600 if thorough else 90)], chunksize=5)
+    for t in ts:
+        ctx.add_class("include|%s|%s" % (t["mode"], t["a"]["outcome"]))
+        if t["a"]["outcome"] not in ("parse", "translation"):
+            ctx.report({"clause": "outcome", "class": {"form": "include-" + t["mode"]}, "symptom": {"why": t["a"]["outcome"], "exc": t["exc"], "site": ""}},
+                       {"kind": "include", "main": t["linesA"], "files": t["files"]})
+        cli = t.get("cli")
+        if cli is not None and (cli["tb"] or cli["exit"] == 0):
+            ctx.report({"clause": "cli-traceback" if cli["tb"] else "cli-exit-zero-on-diagnostic", "class": {"form": "include-" + t["mode"]}, "symptom": {}},
+                       {"kind": "include", "main": t["linesA"], "files": t["files"]})
+    ctx.add_suite("include-missing-and-cycles", len(ts), 0, time.time() - t0)
     # the CLI: diagnostic => exit != 0 and no output file
     sample = [README] + [rnd.choice(muts) for _ in range(150 if thorough else 24)]
     cli_clause(ctx, rnd, sample)
